@@ -22,6 +22,9 @@ CHECKS = {
  "C08": ("Lean theorems about the model writer: both framings wrap the same body and the prefix is len(record.String()) (framing_wraps_same_body); under EBCDIC the body of an ASCII-text record is its byte-for-byte CP037 transliteration of equal length (ebcdic_translit, via encode_ascii over the encoder model and the regenerated table), record 52 transliterates toString(false) and passes the image bytes of String() through (ebcdic_ivData); length-prefix framing is lossless (splitLP_joinLP). The model writer is tied to writer.go by rendering generated files (base64 images, lying image lengths, binary signatures included) in all four option sets with both, and the relations are checked on the real bytes.",
          TB + "gdamore/encoding's encoder is modelled (rune-level, chunk boundary behaviour of x/text transform.String beyond 128-byte lines is NOT modelled; lines with non-ASCII text longer than 128 bytes are outside the model). One recorded finding (binary signature under EBCDIC).",
          "Lean 4 proof on the writer model + four-rendering correspondence", "§7.8"),
+ "C16": ("scanVariableLengthLines is TRANSLATED statement by statement into Lean (Gen.splitLP, regenerated each run); Lean proves it satisfies SplitOK (splitLP_ok) and, for any SplitOK split function, that the bufio.Scanner model yields the whole-input reference over EVERY chunk schedule (zero-length reads included) and buffer bound unless ErrTooLong (scan_eq_ref, chunk_independent); a stream cut inside a record ends in ErrUnexpectedEOF (cut_is_error). The scanner model is tied to the real bufio.Scanner by reading every truncation of generated files through chunking io.Readers and several buffer sizes, including too-small ones.",
+         TB + "bufio.Scanner is modelled (pending bytes, buffer bound, reads capped by room); its 100-empty-reads limit and ErrFinalToken are not modelled. bufio.ScanLines (newline framing) is modelled but its SplitOK proof is not done: newline framing is covered by the chunked correspondence only.",
+         "Lean 4 proof over the translated split function + scanner model; chunked-reader correspondence", "§7.16"),
  "C18": ("Lean theorems on the reader model: a failed read carries the 1-based position of the record at which the loop stopped (C18_error_line, using lineStable proved by case analysis of all 21 record kinds) and the rejecting step leaves r.File untouched (rejected_record_leaves_file). Tied to reader.go by spoiling every record of generated files in every way (each field blank/zero/illegal, too short, unknown type) and comparing verdict, line and partial file.",
          TB + "The theorem speaks about the model's step function; agreement with reader.go is by correspondence (0 disagreements over every spoil of the generated files).",
          "Lean 4 proof on the reader model + exhaustive spoiled-record correspondence", "§7.18"),
